@@ -147,7 +147,15 @@ fn dump(kind: &str, out: &str) {
     } else {
         json!({"bundled": load_json(&r1)})
     };
-    let v = full_dump(&ctx, &load);
+    let mut v = full_dump(&ctx, &load);
+    // the definitions as written in the shipped source texts
+    let mut src = rv_harness::dump::source_defs_json(rink_core::DEFAULT_FILE.unwrap());
+    if kind == "currency" {
+        if let (Some(a), Some(b)) = (src.as_array_mut(), rv_harness::dump::source_defs_json(rink_core::CURRENCY_FILE.unwrap()).as_array()) {
+            a.extend(b.iter().cloned());
+        }
+    }
+    v["source_defs"] = src;
     std::fs::write(out, serde_json::to_string(&v).unwrap()).expect("write dump");
 }
 
